@@ -12,6 +12,7 @@ import (
 
 	remoteexecution "github.com/bazelbuild/remote-apis/build/bazel/remote/execution/v2"
 	"github.com/buildbarn/bb-remote-execution/pkg/builder"
+	"github.com/buildbarn/bb-remote-execution/pkg/filesystem/virtual"
 	"github.com/buildbarn/bb-remote-execution/pkg/proto/remoteworker"
 	runner_pb "github.com/buildbarn/bb-remote-execution/pkg/proto/runner"
 	"github.com/buildbarn/bb-storage/pkg/clock"
@@ -206,6 +207,54 @@ func TestC10LocalBuildExecutorNaive(t *testing.T) {
 	})
 }
 
+type virtualRig struct {
+	w *virtualWorld
+}
+
+func (v *virtualRig) buildDirectory() (builder.BuildDirectory, error) { return v.w.bd, nil }
+func (v *virtualRig) rootDirectory() (virtual.PrepopulatedDirectory, error) {
+	child, err := v.w.top.LookupChild(vcomp("root"))
+	if err != nil {
+		return nil, nil
+	}
+	d, _ := child.GetPair()
+	if d == nil {
+		return nil, fmt.Errorf("root is not a directory")
+	}
+	return d, nil
+}
+func (v *virtualRig) inputRoot() (*node, error) {
+	d, err := v.rootDirectory()
+	if err != nil || d == nil {
+		return nil, err
+	}
+	return readTreeVirtual(d)
+}
+func (v *virtualRig) runAction(want *node, stdout, stderr string) error {
+	d, err := v.rootDirectory()
+	if err != nil || d == nil {
+		return fmt.Errorf("no input root: %v", err)
+	}
+	if err := rematerialiseVirtual(d, want); err != nil {
+		return err
+	}
+	logs := newDir()
+	logs.children["stdout"] = &node{kind: kFile, data: stdout}
+	logs.children["stderr"] = &node{kind: kFile, data: stderr}
+	return materialiseVirtual(v.w.top, logs)
+}
+func (v *virtualRig) buildDirectoryEntries() ([]string, error) { return nil, nil }
+func (v *virtualRig) close()                                   {}
+
+func TestC10LocalBuildExecutorVirtual(t *testing.T) {
+	rec := simkit.NewRecorder(t, "C10", "local_build_executor_virtual", "as local_build_executor, but the build directory is the real builder.NewVirtualBuildDirectory over virtual.NewInMemoryPrepopulatedDirectory (CAS-backed lazily loaded input root, pool-backed output files); the fake runner reads and writes it through the Virtual* calls of a FUSE/NFS front end; covers virtual_build_directory.go Lstat/Readlink/UploadFile/Mkdir/MergeDirectoryContents. "+executorRule)
+	rapid.Check(t, func(rt *rapid.T) {
+		runExecutorCase(rt, rec, "virtual", func(c *fakeCAS) (execRig, error) {
+			return &virtualRig{w: newVirtualWorld(c)}, nil
+		})
+	})
+}
+
 func runExecutorCase(rt *rapid.T, rec *simkit.Recorder, backend string, newRig func(*fakeCAS) (execRig, error)) {
 	ci := drawCommand(rt)
 	rc := refCommandOf(ci.workdir, ci.paths)
@@ -266,7 +315,7 @@ func runExecutorCase(rt *rapid.T, rec *simkit.Recorder, backend string, newRig f
 	creator := &fakeCreator{get: rig.buildDirectory}
 	executor := builder.NewLocalBuildExecutor(cas, creator, runner, fakeClock{}, time.Minute, nil, 1<<20, map[string]string{"PATH": "/bin"}, ci.force)
 	updates := make(chan *remoteworker.CurrentState_Executing, 16)
-	response := executor.Execute(context.Background(), nil, nil, digestFunction, &remoteworker.DesiredState_Executing{
+	response := executor.Execute(context.Background(), memPool{}, nil, digestFunction, &remoteworker.DesiredState_Executing{
 		ActionDigest: actionDigest,
 		Action:       action,
 	}, updates)
